@@ -59,7 +59,9 @@ pub fn kill_strategy(_t: Tier) -> impl Strategy<Value = KillCase> {
     let lim = prop_oneof![
         3 => (0u64..48).prop_map(Lim::Abs),
         9 => any::<u16>().prop_map(Lim::Interior),
-        4 => (-12i8..=3).prop_map(Lim::FromEnd),
+        2 => Just(Lim::FromEnd(-1)),
+        2 => Just(Lim::FromEnd(0)),
+        3 => (-12i8..=3).prop_map(Lim::FromEnd),
     ];
     (small_content_strategy(), small_content_strategy(), writer_path(), lim).prop_map(|(prev, next, (writer, path), lim)| KillCase { prev, next, writer, path, lim })
 }
@@ -286,7 +288,7 @@ impl Env {
         if same_state(&self.p_obs, &self.n_obs) {
             ctx.label("previous and new snapshot hold the same state");
         }
-        let classes = self.next.probes.classes.len();
+        let classes = crate::model::counted_classes(&self.next.probes);
         ctx.label(format!("new content data classes:{}", classes.min(4)));
     }
 }
